@@ -274,9 +274,11 @@ def run(repo, rep, tier):
         pname = pull_for(name)
         pulls = [c for c in self_calls(_B(inner.body))
                  if dotted(c.func).startswith('self.Pull')]
+        from ..flow import value_of as _vo
         ok = bool(pulls) and all(dotted(c.func) == 'self.' + pname and
                                  c.args and
-                                 norm(c.args[0]) == 'pull_result.context'
+                                 norm(_vo(f, c.args[0])) ==
+                                 'pull_result.context'
                                  for c in pulls)
         r5.ob(ok, name + ':pull', {'iter': name, 'pull': pname})
         if not ok:
